@@ -655,9 +655,27 @@ class Interp:
         elif isinstance(target, ast.Subscript):
             obj = self.eval(target.value, frame)
             idx = self.eval_index(target.slice, frame)
+            if self.options.get("pointwise") and isinstance(obj, (Sym, SymC, int, Fraction)) and isinstance(target.value, ast.Name):
+                # a[mask] = v  /  a[(0, 0)] = v  on an array modelled by one arbitrary element
+                frame.vars[target.value.id] = v_ite(self.pointwise_selector(idx), v, obj)
+                return
             self.set_item(obj, idx, v)
         else:
             raise Unsupported(f"assignment target {type(target).__name__}")
+
+    def pointwise_selector(self, idx):
+        """Truth value of `this element is selected by idx` (boolean mask element, or the zero-frequency pixel)."""
+        if isinstance(idx, Sym) and idx.kind == "bool":
+            return idx
+        if isinstance(idx, bool):
+            return idx
+        items = idx if isinstance(idx, tuple) else (idx,)
+        ok = all((isinstance(i, SliceVal) and i.lo is None and i.hi is None) or (isinstance(i, int) and not isinstance(i, bool) and i == 0)
+                 for i in items)
+        if ok and any(isinstance(i, int) for i in items):
+            self.ctx.trusted.add("A-POINTWISE: index (0, ..., 0) selects the zero-frequency pixel, modelled by the boolean `origin()`")
+            return Sym(z3.Bool("is_origin"), "bool")
+        raise Unsupported("element-selecting subscript store in pointwise mode")
 
     def set_attr(self, obj, name, v):
         if isinstance(obj, SymObj):
@@ -1007,11 +1025,11 @@ class Interp:
             return obj
         if isinstance(obj, (Sym, SymC, int, Fraction)) and self.options.get("pointwise"):
             if name == "shape":
-                return ()
+                return (Sym(z3.Int("shape0"), "int"), Sym(z3.Int("shape1"), "int"))
             if name == "imag" and not isinstance(obj, SymC):
                 return 0
             if name == "ndim":
-                return 0
+                return 2
             if name == "dtype":
                 return TypeRef("dtype")
         if isinstance(obj, (list, tuple, dict, str, SymSeq, Sym, int, Fraction, SliceVal)):
@@ -1025,6 +1043,8 @@ class Interp:
 
     def binop(self, op, a, b):
         ctx = self.ctx
+        if isinstance(a, self.ext.Arr) or isinstance(b, self.ext.Arr):
+            return self.ext.arr_binop(self, lambda x, y: self.binop(op, x, y), a, b)
         if isinstance(op, ast.Add):
             if isinstance(a, (tuple, list, SymSeq)) and isinstance(b, (tuple, list, SymSeq)):
                 if isinstance(a, SymSeq) or isinstance(b, SymSeq):
@@ -1230,6 +1250,9 @@ class Interp:
     def get_item(self, obj, idx):
         if isinstance(obj, TypeRef):
             return obj
+        if isinstance(obj, self.ext.Arr):
+            r = self.get_item(obj.items, idx)
+            return self.ext.Arr(r) if isinstance(r, tuple) else r
         if isinstance(obj, dict):
             if concrete(idx):
                 if idx not in obj:
